@@ -67,6 +67,7 @@ class C03(Harness):
         inp["absolute"] = bool(ctx.fresh_bool("absolute"))
         inp["as_unsorted_index"] = bool(ctx.fresh_bool("as_unsorted_index")) if K > 1 else False
         inp["range_index"] = bool(ctx.fresh_bool("range_index"))
+        inp["update_params"] = (not inp["range_index"]) if nb else True  # (tied to the index kind to keep the path count)
         if k in REQUIRED_FH:
             inp["fh_in_fit"] = True
         else:
@@ -100,8 +101,13 @@ class C03(Harness):
             pd = W.pd
 
             class Res:
-                def __init__(self, first):
-                    self.first = first
+                """statsmodels results contract: predict(start, end) by zero-based position, fittedvalues / nobs of the fitted sample"""
+
+                def __init__(self, y_train):
+                    self.first = y_train.index[0]
+                    self.nobs = len(y_train)
+                    self.fittedvalues = pd.Series(list(y_train.values), index=y_train.index)
+                    self.params = {"smoothing_level": 0.5}
 
                 def predict(self, start, end):
                     m = int(end - start) + 1
@@ -109,7 +115,7 @@ class C03(Harness):
 
             class Stub(ad._StatsModelsAdapter):
                 def _fit_forecaster(self, y_train, X_train=None):
-                    self._fitted_forecaster = Res(y_train.index[0])
+                    self._fitted_forecaster = Res(y_train)
 
             return Stub()
         Member = make_member(W, log)
@@ -180,7 +186,7 @@ class C03(Harness):
             f.fit(y)
         out["cutoff_fit"] = S(f.cutoff)
         if nb:
-            f.update(ser(inp["u"], origin + n))
+            f.update(ser(inp["u"], origin + n), update_params=inp.get("update_params", True))
             out["cutoff_upd"] = S(f.cutoff)
         p = f.predict() if inp["fh_in_fit"] else f.predict(fh)
         out["index"] = L(p.index)
@@ -212,12 +218,15 @@ class C03(Harness):
         nums = list(inp["fh"])
         mk = lambda absolute: FH(np.array(nums), is_relative=not absolute)  # noqa: E731
         first_abs = inp["absolute"]
+        # the object is not fresh: it was fitted before on a series that ends elsewhere
+        if k != "gridsearch":  # (the tuner forks on every score comparison: its earlier fit is left out to keep the path count)
+            f.fit(ser(inp["y"], origin - 5))
         if inp["fh_in_fit"]:
             f.fit(ser(inp["y"], origin), fh=mk(first_abs))
         else:
             f.fit(ser(inp["y"], origin))
         if nb:
-            f.update(ser(inp["u"], origin + n))
+            f.update(ser(inp["u"], origin + n), update_params=inp.get("update_params", True))
         p1 = f.predict() if inp["fh_in_fit"] else f.predict(mk(first_abs))
         p2 = f.predict(mk(not first_abs))
         p3 = f.predict(mk(first_abs))
